@@ -13,7 +13,7 @@ import (
 
 func genC10(rt *rapid.T) Scenario {
 	return genScenario(rt, Profile{MinTargets: 1, MaxTargets: 2, MinSets: 2, MaxSets: 6, MultiTarget: true, Offline: true,
-		Faults: true, Transient: true, Standby: true, FaultInSync: true, HardFaults: true, Pace: true, Preempt: 2, Drawn: true})
+		Faults: true, Transient: true, Standby: true, FaultInSync: true, HardFaults: true, ParkWrites: true, Pace: true, Preempt: 2, Drawn: true})
 }
 
 // checkMastershipAtQuiescence: the master is empty or names an existing
